@@ -243,11 +243,13 @@ func init() {
 	reg(vxPkg+"NodeHashesSeparated", func(in *Interp, c *Frame, fn *ssa.Function, a []Value) Value {
 		in.assume(in.collisionFreeAxioms())
 		in.assume(in.nodeHashSeparationAxioms())
+		in.st.idealHash, in.st.nodeSep = true, true
 		in.extra["idealhash"] = 2
 		return nil
 	})
 	reg(vxPkg+"CollisionFree", func(in *Interp, c *Frame, fn *ssa.Function, a []Value) Value {
 		in.assume(in.collisionFreeAxioms())
+		in.st.idealHash = true
 		if _, ok := in.extra["idealhash"]; !ok {
 			in.extra["idealhash"] = 1
 		}
